@@ -41,9 +41,9 @@ def tree_hash() -> str:
 def setup_env() -> None:
     """Pin every environment knob the checks depend on. Idempotent."""
     cache = VERIF / ".cache"
-    th = tree_hash()
-    # numba caches are keyed by source file + mtime + closure contents -> safe to share per tree hash
-    os.environ.setdefault("NUMBA_CACHE_DIR", str(cache / th / "numba"))
+    # numba validates every cache entry against (mtime, size) of the defining source file and keys it by
+    # bytecode + closure contents, so one directory can be shared between tree states
+    os.environ.setdefault("NUMBA_CACHE_DIR", str(cache / "numba"))
     # pystencils object cache is keyed by generated code -> safe to share between trees
     os.environ.setdefault("XDG_CACHE_HOME", str(cache / "xdg"))
     os.environ.setdefault("PYTHONHASHSEED", "0")
